@@ -25,7 +25,7 @@ func checkerSummaries(t *Tree) map[string]uint32 {
 		if len(f.Params) < 2 {
 			continue
 		}
-		pp := f.Params[1].Name() + ".Param"
+		pp := pname(f.Params[1]) + ".Param"
 		flow := lengthFlow(f, lenState{})
 		var acc uint32
 		any := false
@@ -371,10 +371,10 @@ func calleeBelowLen(in ssa.Instruction, idx ssa.Value, base string) string {
 				break
 			}
 			if path(a) == ip {
-				pi = h.Params[k].Name()
+				pi = pname(h.Params[k])
 			}
 			if path(a) == base {
-				pb = h.Params[k].Name()
+				pb = pname(h.Params[k])
 			}
 		}
 		if pi == "" || pb == "" {
@@ -533,7 +533,7 @@ func resultBounded(in ssa.Instruction, idx ssa.Value, isLen func(a ssa.Value) bo
 		v := ret.Results[k]
 		upper := false
 		if listParam {
-			upper = belowLen(ret, v, lenParam.Name())
+			upper = belowLen(ret, v, pname(lenParam))
 		} else {
 			if bo, isB := mv.(*ssa.BinOp); isB && markBool && bo.Op == token.LSS && bo.X == v && bo.Y == ssa.Value(lenParam) {
 				upper = true
@@ -557,8 +557,8 @@ func resultBounded(in ssa.Instruction, idx ssa.Value, isLen func(a ssa.Value) bo
 					return true
 				}
 				lp, isL := lenOf(a)
-				return listParam && isL && lp == lenParam.Name()
-			}, lenParam.Name(), depth+1)
+				return listParam && isL && lp == pname(lenParam)
+			}, pname(lenParam), depth+1)
 			if inner != "" {
 				via = "; " + inner
 				return
@@ -567,7 +567,7 @@ func resultBounded(in ssa.Instruction, idx ssa.Value, isLen func(a ssa.Value) bo
 		okAll = false
 	})
 	if okAll && n > 0 {
-		return fmt.Sprintf("%s(…, %s) reported success, and its every successful return yields 0 ≤ v < %s by its own guards%s", h.Name(), lenName, lenParam.Name(), via)
+		return fmt.Sprintf("%s(…, %s) reported success, and its every successful return yields 0 ≤ v < %s by its own guards%s", h.Name(), lenName, pname(lenParam), via)
 	}
 	return ""
 }
@@ -800,7 +800,7 @@ func checkC01(c *Ctx) {
 	sumOut := map[string]string{}
 	for name, f := range run {
 		if m, ok := sums[name]; ok && len(f.Params) >= 2 {
-			d.initLen[f] = lenState{f.Params[1].Name() + ".Param": m}
+			d.initLen[f] = lenState{pname(f.Params[1]) + ".Param": m}
 			var ks []string
 			for n := 0; n <= 31; n++ {
 				if m&(1<<uint(n)) != 0 {
@@ -1528,6 +1528,14 @@ func (d *dischargeCtx) callersMinLen(f *ssa.Function, base ssa.Value, depth int)
 				}
 			}
 		}
+		if n == 0 && suffix == "" {
+			// a tail x[i:] of a container with i < len(x) proved at the call: at least one element
+			if sl, isS := arg.(*ssa.Slice); isS && sl.Low != nil && sl.High == nil && sl.Max == nil {
+				if belowLen(cs, sl.Low, path(sl.X)) {
+					n = 1
+				}
+			}
+		}
 		if n == 0 {
 			// the caller hands on its own parameter (or a field path of it)
 			if r2, _ := paramRoot(arg); r2 != nil {
@@ -1711,7 +1719,7 @@ func (d *dischargeCtx) closureBound(f *ssa.Function, base, idx ssa.Value) string
 			if p == nil {
 				return ""
 			}
-			bp = p.Name()
+			bp = pname(p)
 		}
 		ai := cs.Call.Args[ki]
 		okSite := false
